@@ -703,6 +703,22 @@ func (g *c12) hashing(n int) {
 			})
 		}
 	}
+	// every prefix of well-formed spellings (and of near misses), under every datatype: truncated input is the most common malformed input
+	for _, full := range []string{"2020-01-01T00:00:00.123456789+05:30", "2020-01-01", "-12345678901234567890", "+1.5E-3", "true", "false", "0001-01-01T00:00:00Z", "2020-1-1", "20200101"} {
+		for cut := 0; cut <= len(full); cut++ {
+			v := full[:cut]
+			for _, dt := range []string{xsdNS + "dateTime", xsdNS + "integer", xsdNS + "boolean", xsdNS + "double"} {
+				dt := dt
+				g.probe("hash-value", J{"dt": dt, "value": v}, []string{"hash", "prefix"}, func() (any, error) {
+					h, err := merklize.HashValue(dt, v)
+					if err != nil {
+						return nil, err
+					}
+					return h, nil
+				})
+			}
+		}
+	}
 	for i := 0; i < n; i++ {
 		b := make([]byte, r.Intn(12))
 		for j := range b {
